@@ -267,7 +267,7 @@ def pack(cases):
             if c.get("skip"):
                 skipped += 1
                 continue
-            recs.append(dict(id=len(recs), kind="eval", N=c["N"], tiehi=c["tiehi"], raised=c["raised"],
+            recs.append(dict(id=len(recs), kind="eval", N=c["N"], tiehi=c["tiehi"], raised=c["raised"], reeval_same=bool(c.get("reeval_same", True)),
                              frames=[dict(gt=f["gt"], pr=f["pr"], sc=f["sc"], haspr=f["haspr"], okr=f["okr"], thrk=f["thrk"]) for f in c["frames"]],
                              obs=c["obs"]))
         else:
